@@ -2,7 +2,7 @@
    examples, and the refutations (findings F4, F14, F15). *)
 From Coq Require Import List ZArith Bool Lia ZifyBool.
 From TskVerif Require Import Base.Common C06.Model C06.BasicProofs C06.ListFacts C06.Valid
-  C06.CursorProofs C06.WriteLoops C06.NavProofs C06.SeekProofs.
+  C06.CursorProofs C06.WriteLoops C06.NumEdges C06.NavProofs C06.SeekProofs.
 Import ListNotations.
 Open Scope Z_scope.
 
@@ -11,8 +11,8 @@ Definition finite_op (o : op) : Prop := match o with OpSeek NaN => False | _ => 
 
 (* what the property compares: everything of the modelled state that navigation can change
    and that has a canonical value (the tracked counts and the site list do NOT: F14, F15) *)
-Definition abs (t : tree) : Z * Z * Z * list Z * list Z :=
-  (t_index t, t_left t, t_right t, t_parent t, t_edge t).
+Definition abs (t : tree) : Z * Z * Z * list Z * list Z * Z :=
+  (t_index t, t_left t, t_right t, t_parent t, t_edge t, t_num_edges t).
 
 (* THE CURSOR INVARIANT, written out (DESIGN 4/C06) *)
 Definition cursor_ok (ts : tseq) (t : tree) : Prop :=
@@ -31,9 +31,11 @@ Definition cursor_ok (ts : tseq) (t : tree) : Prop :=
 Definition spec_state (ts : tseq) (t : tree) : Prop :=
   let k := t_index t in
   (k = -1 /\ t_left t = 0 /\ t_right t = 0 /\
-   t_parent t = repeat TSK_NULL (Z.to_nat (ts_N ts + 1)) /\ t_edge t = repeat TSK_NULL (Z.to_nat (ts_N ts + 1))) \/
+   t_parent t = repeat TSK_NULL (Z.to_nat (ts_N ts + 1)) /\ t_edge t = repeat TSK_NULL (Z.to_nat (ts_N ts + 1)) /\
+   t_num_edges t = 0) \/
   (0 <= k < num_trees ts /\ t_left t = bp ts k /\ t_right t = bp ts (k + 1) /\
-   t_parent t = parent_at ts (bp ts k) /\ t_edge t = edges_at ts (bp ts k)).
+   t_parent t = parent_at ts (bp ts k) /\ t_edge t = edges_at ts (bp ts k) /\
+   t_num_edges t = num_edges_at ts (bp ts k)).
 
 Section Ops.
 Variable ts : tseq.
@@ -48,59 +50,64 @@ Proof.
   rewrite <- Hi in *. auto.
 Qed.
 
-Lemma tree_ok_spec t : tree_ok ts t -> spec_state ts t.
+(* the invariant of the machine: cursor invariant + arrays = SPEC + edge counter *)
+Definition inv (t : tree) : Prop := tree_ok ts t /\ ne_ok ts t.
+
+Lemma tree_ok_spec t : inv t -> spec_state ts t.
 Proof.
-  intros H. pose proof H as (Hi & Hl & Hr & _). unfold spec_state.
+  intros [H Hn]. pose proof H as (Hi & Hl & Hr & _). unfold spec_state. unfold ne_ok, cur_x in Hn.
   destruct (tree_ok_cases ts t H) as [(I & (N1 & N2 & N3) & (A1 & A2))|(K & (P1 & P2 & P3 & P4) & (A1 & A2))].
   - left. destruct (outside_null ts V (-1) ltac:(lia)) as [E1 E2].
-    rewrite Hl, Hr, A1, A2, E1, E2. auto.
-  - right. rewrite Hl, Hr. rewrite <- Hi in *. auto.
+    rewrite I in Hn. simpl in Hn. rewrite (num_edges_outside ts V (-1)) in Hn by lia.
+    rewrite Hl, Hr, A1, A2, E1, E2. auto 10.
+  - right. replace (t_index t =? -1) with false in Hn by lia.
+    rewrite Hl, Hr. rewrite <- Hi in *. auto 10.
 Qed.
 
 Lemma spec_state_abs t1 t2 : spec_state ts t1 -> spec_state ts t2 -> t_index t1 = t_index t2 -> abs t1 = abs t2.
 Proof.
   unfold spec_state, abs. intros [S1|S1] [S2|S2] E; try lia;
-    destruct S1 as (a1 & a2 & a3 & a4 & a5); destruct S2 as (b1 & b2 & b3 & b4 & b5).
-  - rewrite a2, a3, a4, a5, b2, b3, b4, b5, E. reflexivity.
-  - rewrite a2, a3, a4, a5, b2, b3, b4, b5, E. reflexivity.
+    destruct S1 as (a1 & a2 & a3 & a4 & a5 & a6); destruct S2 as (b1 & b2 & b3 & b4 & b5 & b6).
+  - rewrite a2, a3, a4, a5, a6, b2, b3, b4, b5, b6, E. reflexivity.
+  - rewrite a2, a3, a4, a5, a6, b2, b3, b4, b5, b6, E. reflexivity.
 Qed.
 
 (* ---- one Python call ---- *)
 
-Lemma py_step_ok st o : tree_ok ts (fst st) -> tree_ok ts (snd st) -> finite_op o ->
-  exists st' r, py_step core ts st o = Ok (st', r) /\ tree_ok ts (fst st') /\ tree_ok ts (snd st').
+Lemma py_step_ok st o : inv (fst st) -> inv (snd st) -> finite_op o ->
+  exists st' r, py_step core ts st o = Ok (st', r) /\ inv (fst st') /\ inv (snd st').
 Proof.
-  destruct st as [cur other]. simpl fst; simpl snd. intros Hc Ho Hf.
+  destruct st as [cur other]. simpl fst; simpl snd. intros [Hc Nc] [Ho No] Hf.
   unfold py_step, py_step_fuel. pose proof (seek_fuel_gt ts) as HF. fold T in HF.
   destruct o as [| | | | |x|i| |].
   - destruct (tree_clear_ok ts V cur Hc) as [C _].
-    destruct (tree_next_ok ts V _ C) as (t' & r & S & H' & _). unfold tree_first. rewrite S. cbn [bind].
-    eexists; eexists; split; [reflexivity|]. auto.
+    destruct (tree_next_ok ts V _ C) as (t' & r & S & H' & _ & N'). unfold tree_first. rewrite S. cbn [bind].
+    eexists; eexists; split; [reflexivity|]. simpl. pose proof (ne_ok_clear ts V cur). unfold inv. auto.
   - destruct (tree_clear_ok ts V cur Hc) as [C _].
-    destruct (tree_prev_ok ts V _ C) as (t' & r & S & H' & _). unfold tree_last. rewrite S. cbn [bind].
-    eexists; eexists; split; [reflexivity|]. auto.
-  - destruct (tree_next_ok ts V _ Hc) as (t' & r & S & H' & _). rewrite S. cbn [bind].
-    eexists; eexists; split; [reflexivity|]. auto.
-  - destruct (tree_prev_ok ts V _ Hc) as (t' & r & S & H' & _). rewrite S. cbn [bind].
-    eexists; eexists; split; [reflexivity|]. auto.
+    destruct (tree_prev_ok ts V _ C) as (t' & r & S & H' & _ & N'). unfold tree_last. rewrite S. cbn [bind].
+    eexists; eexists; split; [reflexivity|]. simpl. pose proof (ne_ok_clear ts V cur). unfold inv. auto.
+  - destruct (tree_next_ok ts V _ Hc) as (t' & r & S & H' & _ & N'). rewrite S. cbn [bind].
+    eexists; eexists; split; [reflexivity|]. simpl. unfold inv. auto.
+  - destruct (tree_prev_ok ts V _ Hc) as (t' & r & S & H' & _ & N'). rewrite S. cbn [bind].
+    eexists; eexists; split; [reflexivity|]. simpl. unfold inv. auto.
   - destruct (tree_clear_ok ts V cur Hc) as [C _].
-    eexists; eexists; split; [reflexivity|]. auto.
+    eexists; eexists; split; [reflexivity|]. simpl. pose proof (ne_ok_clear ts V cur). unfold inv. auto.
   - destruct x as [v|]; [|destruct Hf]. unfold x_lt_z, x_ge_z.
     destruct ((v <? 0) || (ts_L ts <=? v)) eqn:G.
-    + eexists; eexists; split; [reflexivity|]. auto.
-    + destruct (tree_seek_ok ts V (seek_fuel ts) cur v Hc ltac:(lia) HF) as (t' & S & H' & _).
-      rewrite S. cbn [lib_call]. eexists; eexists; split; [reflexivity|]. auto.
+    + eexists; eexists; split; [reflexivity|]. simpl. unfold inv. auto.
+    + destruct (tree_seek_ok ts V (seek_fuel ts) cur v Hc ltac:(lia) HF) as (t' & S & H' & _ & N').
+      rewrite S. cbn [lib_call]. eexists; eexists; split; [reflexivity|]. simpl. unfold inv. auto.
   - fold T. set (i' := if i <? 0 then i + T else i).
     destruct ((i' <? 0) || (T <=? i')) eqn:G.
-    + eexists; eexists; split; [reflexivity|]. auto.
-    + destruct (tree_seek_index_ok ts V (seek_fuel ts) cur i' Hc ltac:(lia) HF) as (t' & S & H' & _).
-      rewrite S. cbn [lib_call]. eexists; eexists; split; [reflexivity|]. auto.
-  - eexists; eexists; split; [reflexivity|]. auto.
-  - eexists; eexists; split; [reflexivity|]. auto.
+    + eexists; eexists; split; [reflexivity|]. simpl. unfold inv. auto.
+    + destruct (tree_seek_index_ok ts V (seek_fuel ts) cur i' Hc ltac:(lia) HF) as (t' & S & H' & _ & N').
+      rewrite S. cbn [lib_call]. eexists; eexists; split; [reflexivity|]. simpl. unfold inv. auto.
+  - eexists; eexists; split; [reflexivity|]. simpl. unfold inv. auto.
+  - eexists; eexists; split; [reflexivity|]. simpl. unfold inv. auto.
 Qed.
 
-Lemma run_from_ok ops : Forall finite_op ops -> forall st, tree_ok ts (fst st) -> tree_ok ts (snd st) ->
-  exists st' outs, run_from core ts st ops = Ok (st', outs) /\ tree_ok ts (fst st') /\ tree_ok ts (snd st').
+Lemma run_from_ok ops : Forall finite_op ops -> forall st, inv (fst st) -> inv (snd st) ->
+  exists st' outs, run_from core ts st ops = Ok (st', outs) /\ inv (fst st') /\ inv (snd st').
 Proof.
   induction 1 as [|o ops Ho Hops IH]; intros st H1 H2.
   - exists st, []. auto.
@@ -109,10 +116,13 @@ Proof.
     exists st2, (r :: outs). cbn [run_from]. rewrite S. cbn [bind]. rewrite R. cbn [bind]. auto.
 Qed.
 
+Lemma inv_init : inv (tree_init ts).
+Proof. split; [apply (tree_init_ok ts V)|apply (ne_ok_init ts V)]. Qed.
+
 Lemma run_ok ops : Forall finite_op ops ->
-  exists st outs, run core ts ops = Ok (st, outs) /\ tree_ok ts (fst st) /\ tree_ok ts (snd st).
+  exists st outs, run core ts ops = Ok (st, outs) /\ inv (fst st) /\ inv (snd st).
 Proof.
-  intros H. apply run_from_ok; [exact H| |]; apply (tree_init_ok ts V).
+  intros H. apply run_from_ok; [exact H| |]; apply inv_init.
 Qed.
 
 Lemma run_from_app ops1 ops2 st st1 o1 :
@@ -178,7 +188,7 @@ Lemma cursor_invariant_proof ts ops : valid_tsb ts = true -> Forall finite_op op
 Proof.
   intros Hv Hf. pose proof (valid_tsb_sound ts Hv) as V.
   destruct (run_ok ts V ops Hf) as (st & outs & R & A & B).
-  exists st, outs. split; [exact R|]. split; apply tree_ok_cursor; assumption.
+  exists st, outs. split; [exact R|]. destruct A, B. split; apply tree_ok_cursor; assumption.
 Qed.
 
 (* (b) the state is the SPEC state of its index ... *)
@@ -187,7 +197,7 @@ Lemma nav_state_is_spec_proof ts ops : valid_tsb ts = true -> Forall finite_op o
 Proof.
   intros Hv Hf. pose proof (valid_tsb_sound ts Hv) as V.
   destruct (run_ok ts V ops Hf) as (st & outs & R & A & B).
-  exists st, outs. split; [exact R|]. split; apply tree_ok_spec; assumption.
+  exists st, outs. split; [exact R|]. split; apply (tree_ok_spec ts V); assumption.
 Qed.
 
 (* ... and equal to the state of a fresh Tree moved directly there (seek_index from a new
@@ -207,9 +217,9 @@ Proof.
   exists st, outs. split; [exact R|].
   destruct (run_ok ts V _ (fresh_ops_finite (t_index (fst st)))) as (fr & outs' & R' & A' & B').
   exists fr, outs'. split; [exact R'|].
-  apply (spec_state_abs ts); try (apply tree_ok_spec; assumption).
+  apply (spec_state_abs ts); try (apply (tree_ok_spec ts V); assumption).
   (* the fresh run ends at the same index *)
-  pose proof (tree_ok_index ts V _ A) as Hi.
+  pose proof (tree_ok_index ts V _ (proj1 A)) as Hi.
   unfold fresh_ops in R'. destruct (t_index (fst st) =? -1) eqn:E.
   - unfold run in R'. simpl in R'. injection R' as <- _. simpl. lia.
   - unfold run in R'. cbn [run_from] in R'.
@@ -217,7 +227,7 @@ Proof.
     replace (t_index (fst st) <? 0) with false in R' by lia.
     replace ((t_index (fst st) <? 0) || (num_trees ts <=? t_index (fst st))) with false in R' by lia.
     destruct (tree_seek_index_ok ts V (seek_fuel ts) (tree_init ts) (t_index (fst st)))
-      as (t' & S & H' & I'); [apply (tree_init_ok ts V)|lia|apply seek_fuel_gt|].
+      as (t' & S & H' & I' & _); [apply (tree_init_ok ts V)|lia|apply seek_fuel_gt|].
     rewrite S in R'. cbn [lib_call bind] in R'. injection R' as <- _. simpl. symmetry. exact I'.
 Qed.
 
@@ -232,10 +242,10 @@ Proof.
   destruct (run_ok ts V ops Hf) as ([cur other] & outs & R & A & B). simpl in A, B.
   exists (cur, other), outs.
   destruct Ho; subst o; unfold py_step, py_step_fuel.
-  - destruct (tree_next_ok ts V cur A) as (t' & r & S & H' & I'). rewrite S. cbn [bind].
+  - destruct (tree_next_ok ts V cur (proj1 A)) as (t' & r & S & H' & I' & _). rewrite S. cbn [bind].
     eexists; eexists; split; [exact R|]. split; [reflexivity|]. simpl. split; [exact I'|].
     apply tree_next_ret in S as [[-> Hn]|[-> Hn]]; simpl; split; try lia; split; intros; lia.
-  - destruct (tree_prev_ok ts V cur A) as (t' & r & S & H' & I'). rewrite S. cbn [bind].
+  - destruct (tree_prev_ok ts V cur (proj1 A)) as (t' & r & S & H' & I' & _). rewrite S. cbn [bind].
     eexists; eexists; split; [exact R|]. split; [reflexivity|]. simpl. split; [exact I'|].
     apply tree_prev_ret in S as [[-> Hn]|[-> Hn]]; simpl; split; try lia; split; intros; lia.
 Qed.
@@ -250,7 +260,7 @@ Proof.
   destruct (run_ok ts V ops Hf) as ([cur other] & outs & R & A & B). simpl in A, B.
   exists (cur, other), outs. unfold py_step, py_step_fuel, x_lt_z, x_ge_z.
   replace ((v <? 0) || (ts_L ts <=? v)) with false by lia.
-  destruct (tree_seek_ok ts V (seek_fuel ts) cur v A Hr (seek_fuel_gt ts)) as (t' & S & H' & K & Bd).
+  destruct (tree_seek_ok ts V (seek_fuel ts) cur v (proj1 A) Hr (seek_fuel_gt ts)) as (t' & S & H' & (K & Bd) & _).
   rewrite S. cbn [lib_call]. eexists. split; [exact R|]. split; [reflexivity|]. simpl. split; [|reflexivity].
   destruct (tree_ok_interval ts t' H') as [(I & _)|(_ & L1 & R1)]; [lia|]. rewrite L1, R1. exact Bd.
 Qed.
@@ -265,7 +275,7 @@ Proof.
   intros Hv Hf Hr. pose proof (valid_tsb_sound ts Hv) as V.
   destruct (run_ok ts V ops Hf) as (st & outs & R & A & B).
   pose proof (v_T ts V) as HT.
-  destruct (tree_seek_ok ts V (Z.to_nat (num_trees ts + 1)) (fst st) v A Hr ltac:(lia)) as (t' & S & _).
+  destruct (tree_seek_ok ts V (Z.to_nat (num_trees ts + 1)) (fst st) v (proj1 A) Hr ltac:(lia)) as (t' & S & _).
   exists st, outs, t'. split; [exact R|]. intros fuel Hfu.
   eapply tree_seek_mono; [exact S|lia].
 Qed.
@@ -278,7 +288,7 @@ Lemma seek_nan_diverges_proof ts ops : valid_tsb ts = true -> Forall finite_op o
 Proof.
   intros Hv Hf. pose proof (valid_tsb_sound ts Hv) as V.
   destruct (run_ok ts V ops Hf) as ([cur other] & outs & R & A & B). simpl in A, B.
-  exists (cur, other), outs. split; [exact R|]. intros N fuel. apply (seek_nan_fuel ts V); assumption.
+  exists (cur, other), outs. split; [exact R|]. intros N fuel. apply (seek_nan_fuel ts V); [exact (proj1 A)|exact N].
 Qed.
 
 (* ------------------------------------------------------------------------------ *)
@@ -307,7 +317,7 @@ Proof. repeat constructor. Qed.
    into the second half; it ends on tree 2 = [4, 6) with the other tree on tree 3 *)
 Example ex_run :
   match run core ex_ts ex_ops with
-  | Ok (st, outs) => abs (fst st) = (2, 4, 6, [4; 4; 3; 4; -1; -1], [4; 5; 2; 3; -1; -1]) /\
+  | Ok (st, outs) => abs (fst st) = (2, 4, 6, [4; 4; 3; 4; -1; -1], [4; 5; 2; 3; -1; -1], 4) /\
                      t_index (snd st) = 3 /\ outs = [2; 1; 2; 1; 2; 2; 2; 1; 0; 1; 2; 2; 2]
   | _ => False
   end.
@@ -355,4 +365,16 @@ Proof.
     injection E as <- <-. intros R. injection R as <- _. reflexivity. }
   exists ex_ts, [OpFirst], st, outs. split; [exact ex_ts_valid|]. split; [repeat constructor|].
   split; [exact R|]. split; [exact I|]. apply D. lia.
+Qed.
+
+(* F4, second facet: from the NULL state seek(NaN) is accepted and silently lands on tree 0
+   (tsk_search_sorted returns 0, `x <= L/2` is false, backward scan) *)
+Lemma seek_nan_accepted_refuted_proof :
+  exists ts st', valid_tsb ts = true /\
+    py_step core ts (init_state ts) (OpSeek NaN) = Ok (st', RET_NONE) /\ t_index (fst st') = 0.
+Proof.
+  exists ex_ts.
+  destruct (py_step core ex_ts (init_state ex_ts) (OpSeek NaN)) as [[st' r]| | |] eqn:E;
+    vm_compute in E; try discriminate.
+  injection E as <- <-. eexists. split; [exact ex_ts_valid|]. split; reflexivity.
 Qed.
